@@ -47,6 +47,7 @@ STANDINS = {
     "SemanticToken": ("semantic_tokens.rs", "SemanticToken", {}),
     "FoldingRange": ("folding_range.rs", "FoldingRange", {}),
     "TextDocumentContentChangeEvent": ("lib.rs", "TextDocumentContentChangeEvent", {"Range": "PosRange"}),
+    "Location": ("lib.rs", "Location", {"Range": "PosRange"}),
 }
 
 def main():
